@@ -19,9 +19,7 @@ def gen_case(rnd):
         if k in hostile_at:
             l = GL.hostile_line(rnd)
             # keep event multiplication bounded: rates below 1e-4 are exercised by the directed case only
-            if b"@" in l and any(x in l for x in (b"e-", b"0.0000", b"@.0000")):
-                l = l.replace(b"@", b"@1")
-            ops.append(PE.I(l))
+            ops.append(PE.I(GL.bound_rates(l)))
         else:
             ops.append(PE.I(GP.gen_line(rnd, cfg, safe=False, odd_p=0.3)))
     for g in GOOD:
